@@ -155,6 +155,7 @@ def record_repo_tests(out_path, files, repo, timeout=3000, want_collections=Fals
     env = dict(os.environ, GLUE_VERIF_TRACE='1', GLUE_VERIF_TRACE_OUT=out_path, PYTHONPATH=root + os.pathsep + repo, MPLBACKEND='Agg')
     if want_collections == 'viewers':
         env['GLUE_VERIF_TRACE_VIEWERS'] = '1'
+    files = [f for f in files if os.path.exists(os.path.join(repo, f))]      # lists name files that some trees do not have
     cmd = [sys.executable, '-m', 'pytest', '-q', '-p', 'no:cacheprovider', '-p', 'harness.glue_tracer_plugin', '--timeout=900'] + files
     p = subprocess.run(cmd, cwd=repo, env=env, stdout=subprocess.PIPE, stderr=subprocess.STDOUT, timeout=timeout)
     tail = p.stdout.decode('utf-8', 'replace')[-400:]
